@@ -9,7 +9,9 @@ case = {utxos: [[txid_hex, index, payload_id], ...]          model table (distin
         ctx: [[addr_idx, [inst_idx, ...]], ...]              what context.utxos(address) returns
         selectors: None (builder default) | [{k: ri|rb|lf|all|fail|crash, stream: [...], lim: int|None}, ...]
         stream: [...]                                        outcomes of the built-in random source (rb / default)
-        items: [[in, inst] | [sin, inst] | [pot, inst] | [exc, inst] | [setexc, [inst..]] | [addr, addr_idx, as_str]
+        items: [[ctxset, addr_idx, [inst..]]  (from now on context.utxos(address) returns this NEW list)
+                | [psin, inst]  (add_script_input of a UTxO at the Plutus script address with script, datum, redeemer + units)
+                | [in, inst] | [sin, inst] | [pot, inst] | [exc, inst] | [setexc, [inst..]] | [addr, addr_idx, as_str]
                 | [out, addr_idx, coin, ma] | [build, {change: addr_idx|None, merge: bool}]]}
 result = {builds: [{exp, pot, exc, addrs, nsel, calls: [[pool, [ok, [..]] | [fail, kind] | [crash, kind]]],
                     out: [ok, after, [[txid_hex, index], ...]] | [err, code, kind, after], snap: bool, snap_diff}],
@@ -19,8 +21,9 @@ from _pre import *
 import builtins
 from fractions import Fraction
 import pycardano.coinselection as CS
-from pycardano import (Address, Asset, AssetName, MultiAsset, ScriptHash, ScriptPubkey, TransactionBuilder,
-                       TransactionInput, TransactionOutput, UTxO, Value, VerificationKeyHash)
+from pycardano import (Address, Asset, AssetName, ExecutionUnits, MultiAsset, PlutusV2Script, Redeemer, ScriptHash,
+                       ScriptPubkey, TransactionBuilder, TransactionInput, TransactionOutput, UTxO, Value,
+                       VerificationKeyHash, datum_hash, plutus_script_hash)
 from pycardano.backend.base import ChainContext, ProtocolParameters
 from pycardano.coinselection import LargestFirstSelector, RandomImproveMultiAsset, UTxOSelector
 from pycardano.exception import UTxOSelectionException
@@ -28,12 +31,16 @@ from pycardano.network import Network
 
 KEYHASHES = [VerificationKeyHash(bytes([k]) * 28) for k in (0x11, 0x22, 0x33, 0x44)]
 NATIVE = ScriptPubkey(KEYHASHES[0])
+PLUTUS = PlutusV2Script(bytes.fromhex('4e4d01000033222220051200120011'))
+PLUTUS_DATUM = 42
 ADDRS = [Address(KEYHASHES[0], network=Network.TESTNET),
          Address(KEYHASHES[1], network=Network.TESTNET),
          Address(KEYHASHES[2], KEYHASHES[3], network=Network.TESTNET),
          Address(KEYHASHES[3], network=Network.TESTNET),
-         Address(NATIVE.hash(), network=Network.TESTNET)]          # index 4: native-script address
+         Address(NATIVE.hash(), network=Network.TESTNET),          # index 4: native-script address
+         Address(plutus_script_hash(PLUTUS), network=Network.TESTNET)]   # index 5: Plutus V2 script address
 SCRIPT_ADDR = 4
+PLUTUS_ADDR = 5
 
 
 class SelectorCrash(Exception):
@@ -112,7 +119,8 @@ def mk_utxo(tab, payloads, form):
     txid, ix, pl = tab
     a, coin, ma = payloads[pl]
     u = UTxO(TransactionInput.from_primitive([bytes.fromhex(txid), ix]),
-             TransactionOutput(ADDRS[a], Value(coin, mk_ma(ma)), post_alonzo=(form != 0)))
+             TransactionOutput(ADDRS[a], Value(coin, mk_ma(ma)), post_alonzo=(form != 0),
+                               datum_hash=datum_hash(PLUTUS_DATUM) if a == PLUTUS_ADDR else None))
     if form == 2:
         u = UTxO.from_cbor(u.to_cbor())
     return u
@@ -228,6 +236,11 @@ def handler(case, payload):
                 b.add_input(objs[it[1]])
             elif k == 'sin':
                 b.add_script_input(objs[it[1]], script=NATIVE)
+            elif k == 'psin':
+                b.add_script_input(objs[it[1]], script=PLUTUS, datum=PLUTUS_DATUM,
+                                   redeemer=Redeemer(7, ExecutionUnits(1000000, 300000000)))
+            elif k == 'ctxset':
+                lists[str(ADDRS[it[1]])] = [objs[x] for x in it[2]]
             elif k == 'pot':
                 b.potential_inputs.append(objs[it[1]])
             elif k == 'exc':
